@@ -222,7 +222,7 @@ func intLit(sb *strings.Builder, val int64, t *token.Token, o Opts) {
 }
 
 // Missing returns the path of the first child that is nil where the node type requires one
-// ("" if none). Only InfixExpression.Right of `:` (open range), ReturnStatement.ReturnValue,
+// ("" if none). Only InfixExpression.Right of `:` directly under an index (open range a[n:]), ReturnStatement.ReturnValue,
 // IfExpression.Alternative and FunctionLiteral.Name may be nil.
 func Missing(n ast.Node) string {
 	return missing(n, "root")
@@ -270,7 +270,8 @@ func missing(n ast.Node, path string) string { //nolint:gocyclo,funlen // type s
 			return m
 		}
 		if isNilNode(v.Right) {
-			if v.Token != nil && v.Token.Type() == token.COLON {
+			// the open range a[n:] is the only infix without a right operand, and only as the index itself
+			if v.Token != nil && v.Token.Type() == token.COLON && strings.HasSuffix(path, ".index.index") {
 				return ""
 			}
 			return path + ".infix.right"
